@@ -377,12 +377,66 @@ func vpLeaks(e *Engine, st *State, fn *ssa.Function, a []Value, s ssa.Instructio
 		ids = append(ids, id)
 	}
 	sort.Ints(ids)
+	syntactic := false
 	for _, id := range ids {
 		if have[id] {
-			return one(st, e.tm.True)
+			syntactic = true
+			break
 		}
 	}
-	return one(st, e.tm.False)
+	if !syntactic {
+		return one(st, e.tm.False)
+	}
+	// semantic refinement (non-interference): are there two secrets of the same length, on this
+	// very path, for which the emitted value differs?
+	names := map[string]bool{}
+	for _, d := range sdeps {
+		var walk func(t *Term)
+		seenT := map[int]bool{}
+		walk = func(t *Term) {
+			if seenT[t.id] {
+				return
+			}
+			seenT[t.id] = true
+			if t.op == OpSelect {
+				names[t.name] = true
+			}
+			for _, a := range t.args {
+				walk(a)
+			}
+		}
+		walk(d)
+	}
+	if len(names) == 0 {
+		return one(st, e.tm.True)
+	}
+	tm := e.tm
+	memo := map[*Term]*Term{}
+	var diffs []*Term
+	for _, d := range deps {
+		d2 := tm.RenameArrays(d, names, "_alt", memo)
+		if d2 != d {
+			diffs = append(diffs, tm.Ne(d, d2))
+		}
+	}
+	if len(diffs) == 0 {
+		return one(st, e.tm.False)
+	}
+	e.sync(st.pc)
+	e.solver.Push()
+	for p := st.pc; p != nil; p = p.parent {
+		p2 := tm.RenameArrays(p.t, names, "_alt", memo)
+		if p2 != p.t {
+			e.solver.Assert(p2)
+		}
+	}
+	e.solver.Assert(tm.Or(diffs...))
+	r := e.solver.Check()
+	e.solver.Pop()
+	if r == Unknown {
+		e.rep.Unknowns++
+	}
+	return one(st, e.tm.Bool(r != Unsat))
 }
 
 // vpPrefer(cond): a soft constraint used only when a model is extracted (witness shaping)
